@@ -22,6 +22,7 @@ EINTR — the latter two since the `fix:` commit fcfcfbe).
 -/
 import A10Verif.Lemmas.OpResults
 import A10Verif.Model.Life
+import A10Verif.Lemmas.Blocked
 
 namespace A10.OpSys
 open A10
@@ -184,3 +185,68 @@ example :
     let es := [Ev.poll 7 true, .poll 8 true, .kpost ⟨5, 0⟩, .process]
     validRun (init false) es = true ∧ (run (init false) es).woken = [8] := by decide
 end A10.OpSys
+
+namespace A10.Blocked
+open A10
+
+/-! ### Part (b) with the futures and the Ring on different threads
+
+`Model/Blocked.lean` interleaves any number of future threads (each polling an operation on a
+possibly full queue: unlocked check, submission lock, locked check, registration in the blocked
+list) with the ring thread (`Ring::poll`: kernel entry, `wake_blocked_futures` with its two critical
+sections) at every scheduling point that matters; the `blk` correspondence component runs the real
+code under the deterministic scheduler against it. Nothing ever completes in this model. -/
+
+/-- **No waker is ever lost** by the take / wake / swap / extend dance of
+`wake_blocked_futures`, under every interleaving: every registration is accounted for in the
+blocked list, in the ring thread's local vector, or among the wakers already invoked. -/
+theorem C03_blocked_conservation (s : St) (h : Reachable s) (i : Nat) :
+    List.count i s.pushed = List.count i s.blocked + List.count i s.r.rest + List.count i s.woken :=
+  blocked_conservation s h i
+
+/-- A registered future whose waker has not been invoked (as often as it registered) is still held
+by the runtime: in the blocked list or in the ring thread's hands. -/
+theorem C03_blocked_registered_or_woken (s : St) (h : Reachable s) (i : Nat)
+    (hc : List.count i s.pushed > List.count i s.woken) :
+    i ∈ s.blocked ∨ ∃ rest left, s.r = RPc.lock2 rest left ∧ i ∈ rest :=
+  blocked_registered_or_woken s h i hc
+
+/-- **Every kernel entry runs the wake pass** (Ok, ETIME and EINTR alike — the `fix:` commit),
+whatever was submitted or consumed. -/
+theorem C03_blocked_enter_always_wakes (s : St) (n : Nat) (hr : s.r = RPc.enter n) :
+    (stepR s).r = RPc.w1 ∧ (stepR s).H = s.H + min n (s.T - s.H) ∧
+    (stepR (stepR s)).r = RPc.w2 (s.H + min n (s.T - s.H)) ∧
+    (stepR (stepR (stepR s))).r =
+      if s.len - (s.T - (s.H + min n (s.T - s.H))) = 0 then RPc.idle
+      else RPc.tryLock (s.len - (s.T - (s.H + min n (s.T - s.H)))) :=
+  blocked_enter_always_wakes s n hr
+
+/-- **A wake pass is effective**: with `avail ≥ 1` free slots and a non-empty list it invokes the
+`min(avail, #blocked)` OLDEST wakers. -/
+theorem C03_blocked_wake_pass (s : St) (avail : Nat) (hr : s.r = RPc.tryLock avail)
+    (ha : 1 ≤ avail) (hb : s.blocked ≠ []) :
+    (stepR s).woken = s.woken ++ List.take (min avail s.blocked.length) s.blocked ∧
+    List.take (min avail s.blocked.length) s.blocked ≠ [] :=
+  ⟨(blocked_wake_pass s avail hr ha hb).1, (blocked_wake_pass s avail hr ha hb).2.1⟩
+
+/-- **Bounded response**: once no future is in the middle of a poll, `⌈#blocked / len⌉`
+`Ring::poll` calls wake EVERY registered future — although no operation ever completes — and what
+has then been woken is exactly what ever registered. -/
+theorem C03_blocked_all_woken (s : St) (h : Reachable s) (hq : Quiet s) :
+    (quietPolls ((s.blocked.length + s.len - 1) / s.len) s).blocked = [] ∧
+    (quietPolls ((s.blocked.length + s.len - 1) / s.len) s).woken = s.woken ++ s.blocked ∧
+    (quietPolls ((s.blocked.length + s.len - 1) / s.len) s).woken.Perm s.pushed :=
+  ⟨(blocked_quiet_polls_ceil s hq).1, (blocked_quiet_polls_ceil s hq).2, blocked_quiet_all_woken s h hq⟩
+
+/-- The repaired defect, machine-checked: with the old `enter` (no wake pass after a timed-out
+entry) a future that registered just after the ring thread's pass stays blocked through ANY number
+of later polls although the queue has room; the current code wakes it on the next poll. -/
+theorem C03_blocked_old_enter_loses_wake :
+    runMvOld (init 1 2 0) lostTrace = lostState ∧ Quiet lostState ∧
+    lostState.T - lostState.H < lostState.len ∧
+    (∀ k : Nat, (quietPollsOld k lostState).blocked = [1] ∧ (quietPollsOld k lostState).woken = []) ∧
+    (quietPoll lostState).woken = [1] ∧ (quietPoll lostState).blocked = [] := by
+  have h := blocked_old_enter_loses_wake
+  exact ⟨h.1, h.2.1, h.2.2.2.1, h.2.2.2.2.2.1, h.2.2.2.2.2.2.1, h.2.2.2.2.2.2.2⟩
+
+end A10.Blocked
